@@ -237,4 +237,111 @@ def tableOk (byClass : List (List AccessRow)) : Bool :=
 def failingClasses (byClass : List (List AccessRow)) : List Nat :=
   (List.range byClass.length).filter (fun k => !(classOk (byClass.getD k [])))
 
+/-! ### From the table check to a discipline of the run
+
+`Respects` states, for one location `x` of a class with table rows `rows`, what it means that a run
+is an instance of the table: every post-publication access to `x` is justified by a considered row
+of the same kind whose lexical locks are really held — on the mutex instance `inst m` that the run
+associates with mutex class `m` for this location — and whose goroutine root, if unique, is the
+thread `thr k`.  This is exactly the part that is trusted (extractor + type-based ownership) and
+that the race-detector runs confront with reality. -/
+
+/-- the four disciplines the table check recognises -/
+inductive Discipline (τ : Trace) (x : Loc) (pub : Nat) : Prop where
+  | locked (m : Mutex) : Locked τ x m pub → Discipline τ x pub
+  | immutable : Immutable τ x pub → Discipline τ x pub
+  | atomic : AllAtomic τ x pub → Discipline τ x pub
+  | confined (t : Tid) : Confined τ x t pub → Discipline τ x pub
+
+def Respects (τ : Trace) (rows : List AccessRow) (x : Loc) (pub : Nat)
+    (inst : Nat → Mutex) (thr : Nat → Tid) : Prop :=
+  ∀ k, pub ≤ k → (τ k).ev.loc = some x →
+    ∃ r, r ∈ rows ∧ considered r = true ∧ r.write = (τ k).ev.isWrite ∧ r.atomic = (τ k).ev.isAtomic ∧
+      (∀ m, m ∈ r.locks → Holds τ (τ k).tid (inst m) .X k) ∧
+      (∀ m, m ∈ r.rlocks → ∃ μ, Holds τ (τ k).tid (inst m) μ k) ∧
+      (r.thread ≠ 0 → (τ k).tid = thr r.thread)
+
+theorem discipline_of_classOk {τ : Trace} {rows : List AccessRow} {x : Loc} {pub : Nat}
+    {inst : Nat → Mutex} {thr : Nat → Tid}
+    (hok : classOk rows = true) (hr : Respects τ rows x pub inst thr) : Discipline τ x pub := by
+  unfold classOk at hok
+  simp only [Bool.or_eq_true] at hok
+  -- every justified access comes with a row of the filtered list
+  have hrow : ∀ k, pub ≤ k → (τ k).ev.loc = some x →
+      ∃ r, r ∈ rows.filter considered ∧ r.write = (τ k).ev.isWrite ∧ r.atomic = (τ k).ev.isAtomic ∧
+        (∀ m, m ∈ r.locks → Holds τ (τ k).tid (inst m) .X k) ∧
+        (∀ m, m ∈ r.rlocks → ∃ μ, Holds τ (τ k).tid (inst m) μ k) ∧
+        (r.thread ≠ 0 → (τ k).tid = thr r.thread) := by
+    intro k hk hx
+    obtain ⟨r, hmem, hc, h1, h2, h3, h4, h5⟩ := hr k hk hx
+    exact ⟨r, List.mem_filter.mpr ⟨hmem, hc⟩, h1, h2, h3, h4, h5⟩
+  rcases hok with ((himm | hat) | hlk) | hcf
+  · -- immutable
+    refine Discipline.immutable ?_
+    intro k hk hx
+    obtain ⟨r, hmem, hw, _⟩ := hrow k hk hx
+    have := List.all_eq_true.mp himm r hmem
+    rw [← hw]
+    simpa using this
+  · -- all atomic
+    refine Discipline.atomic ?_
+    intro k hk hx
+    obtain ⟨r, hmem, _, ha, _⟩ := hrow k hk hx
+    have := List.all_eq_true.mp hat r hmem
+    rw [← ha]
+    exact this
+  · -- common mutex
+    unfold lockedOk at hlk
+    split at hlk
+    · rename_i hnil
+      refine Discipline.immutable ?_
+      intro k hk hx
+      obtain ⟨r, hmem, _⟩ := hrow k hk hx
+      rw [hnil] at hmem
+      cases hmem
+    · rename_i r0 rest hcons
+      obtain ⟨m, _, hall⟩ := List.any_eq_true.mp hlk
+      refine Discipline.locked (inst m) ?_
+      intro k hk hx
+      obtain ⟨r, hmem, hw, _, hX, hS, _⟩ := hrow k hk hx
+      have hh : holdsRow m r = true := List.all_eq_true.mp hall r hmem
+      unfold holdsRow at hh
+      unfold HoldsFor
+      by_cases hwr : r.write = true
+      · rw [if_pos hwr] at hh
+        rw [if_pos (by rw [← hw]; exact hwr)]
+        exact hX m (List.contains_iff_mem.mp hh)
+      · rw [if_neg hwr] at hh
+        rw [if_neg (by rw [← hw]; exact hwr)]
+        rcases Bool.or_eq_true _ _ ▸ hh with h | h
+        · exact ⟨.X, hX m (List.contains_iff_mem.mp h)⟩
+        · exact hS m (List.contains_iff_mem.mp h)
+  · -- confined to one goroutine
+    unfold confinedOk at hcf
+    split at hcf
+    · rename_i hnil
+      refine Discipline.immutable ?_
+      intro k hk hx
+      obtain ⟨r, hmem, _⟩ := hrow k hk hx
+      rw [hnil] at hmem
+      cases hmem
+    · rename_i r0 rest hcons
+      simp only [Bool.and_eq_true] at hcf
+      obtain ⟨hne, hall⟩ := hcf
+      refine Discipline.confined (thr r0.thread) ?_
+      intro k hk hx
+      obtain ⟨r, hmem, _, _, _, _, ht⟩ := hrow k hk hx
+      have hq := List.all_eq_true.mp hall r hmem
+      have heq : r.thread = r0.thread := by simpa using hq
+      have hn0 : r.thread ≠ 0 := by
+        rw [heq]
+        simpa using hne
+      rw [ht hn0, heq]
+
+theorem classOk_of_tableOk {byClass : List (List AccessRow)} (h : tableOk byClass = true) :
+    ∀ rows, rows ∈ byClass → classOk rows = true := by
+  unfold tableOk at h
+  simp only [Bool.and_eq_true] at h
+  exact fun rows hm => List.all_eq_true.mp h.2 rows hm
+
 end KcpVerif.DRF
